@@ -45,6 +45,7 @@ def jobs_for(prop, quick):
         J.append(("MC_NH07_kinds", mc("MC_NH07_kinds", "c07", [D1900, A1900, B1950, AF1900, PHRASE, BADDATE, UID1, UIDBAD, NOTE_A] if not quick
                                       else [D1900, A1900, B1950, AF1900, PHRASE, UID1, UIDBAD], [HEAD], 2, 3, edits=[NOTE_A, UIDBAD2]), "ideal"))
         J.append(("MC_NH07_resi", mc("MC_NH07_resi", "c07", [RESI, D1900, B1950, PLAC_A] if not quick else [RESI, D1900, PLAC_A], [HEAD], 3, 2), "ideal"))
+        J.append(("MC_NH07_places", mc("MC_NH07_places", "c07", [RESI, PLAC_A, PLAC_B] if quick else [RESI, EVEN, PLAC_A, PLAC_B], [HEAD], 3, 2), "ideal"))
         J.append(("MC_NH07_even", mc("MC_NH07_even", "c07", [EVEN_X, EVEN, A1900, PLAC_A, PLAC_B], [HEAD], 3 if not quick else 2, 2 if not quick else 3), "ideal"))
         # the named deviation: two different Before (After) dates as siblings
         J.append(("MC_NH07_asis", mc("MC_NH07_asis", "c07", [B1900, B1950, D1900, A1900, NOTE_A], [HEAD], 2, 3, flags=ASIS), "asis"))
